@@ -38,7 +38,7 @@ LEVELS = ["ModifiedPeptide", "Precursor", "PeptideGroup"]
 def budget(tier):
     if tier == "quick":
         return {"examples": 1600, "shards": 16, "time_s": 60}
-    return {"examples": 32000, "shards": 16, "time_s": 900}
+    return {"examples": 64000, "shards": 16, "time_s": 1500}
 
 
 def _recase(draw, name):
